@@ -37,6 +37,10 @@ Section Canon.
   Variable old : bool.
   Variable ordering : list var.
 
+  (* repaired _canonical_factors: a canonical factor that is itself a product is flattened again *)
+  Definition factors_of (r : expr) : list expr :=
+    if old then [r] else match r with EProd fs => fs | _ => [r] end.
+
   (* (canonical form of e, canonical forms of the flattened factors of e) *)
   Fixpoint cz (e : expr) : expr * list expr :=
     match e with
@@ -44,8 +48,8 @@ Section Canon.
         let r := match canon_sorted ordering ch, canon_sorted ordering pa with
                  | Some c, Some p => prob_raw pop c p
                  | _, _ => EErr KeyError
-                 end in (r, [r])
-    | ESum e' rs => let r := sum_safe_gen old (fst (cz e')) rs true in (r, [r])
+                 end in (r, factors_of r)
+    | ESum e' rs => let r := sum_safe_gen old (fst (cz e')) rs true in (r, factors_of r)
     | EProd es =>
         let leaves := (fix go (es : list expr) : list expr :=
                          match es with [] => [] | x :: t => snd (cz x) ++ go t end) es in
@@ -56,7 +60,7 @@ Section Canon.
         let r := if is_err n' then n' else if is_err d' then d'
                  else if is_one d' then n'
                  else if expr_eqb n' d' then EOne
-                 else (if old then truediv_old n' d' else truediv n' d') in (r, [r])
+                 else (if old then truediv_old n' d' else truediv n' d') in (r, factors_of r)
     | EOne | EZero => (e, [e])
     | EQ _ _ => (EErr TypeError, [EErr TypeError])
     | EErr _ => (e, [e])
